@@ -18,6 +18,9 @@ CONFIGS = {
     # several merge keys (mapping and list valued) over shared sources, sources reused after the merging mapping
     'mlist4': dict(BASE, MaxNodes=4, Keys=['k1', 'k2', 'M'], Vals=['v1'], MaxElems=1, Modes=['D'], AllowSelf=False,
                    MergeShape='"refs"'),
+    # a mapping that has its own merge key is built as an ordinary value and is then a merge source of a later one
+    'reuse3': dict(BASE, MaxNodes=3, Keys=['k1', 'k2', 'M'], Vals=['v1'], SeqTags=[], Modes=['B', 'D'], AllowSelf=False,
+                   MergeShape='"refs"'),
     # thorough only
     'merge3w': dict(BASE, Vals=['v1', 'v2'], Modes=['A', 'B', 'C']),
     'deep4v': dict(BASE, MaxNodes=4, Keys=['k1', 'M'], SeqTags=[], AllowSelf=False, Modes=['A', 'C']),
@@ -25,7 +28,7 @@ CONFIGS = {
                     SeqTags=['seq', 'omap', 'pairs'], Modes=['A', 'B']),
     'deep5': dict(BASE, MaxNodes=5, Keys=['k1', 'M'], Vals=[], SeqTags=[], AllowSelf=False, Modes=['A', 'C']),
 }
-TIERS = {'quick': ['merge3', 'deep4', 'shapes', 'mlist4'],
+TIERS = {'quick': ['merge3', 'deep4', 'shapes', 'mlist4', 'reuse3'],
          'thorough': ['merge3w', 'deep4v', 'shapesw', 'deep5']}
 
 KEYTXT = {'k1': '1', 'k1f': '1.0', 'k2': 'b', 'M': '<<', 'Q': '"<<"', 'U': '? []'}
